@@ -50,9 +50,9 @@ META = {
         "technique": "Lean 4 proofs by induction (total order, sortedness, stability, last-wins) over a model with regenerated guards; differential random cases",
     },
     "C10": {
-        "text": "Proof over a tree model: frame theorems (a Set call changes only the receiver; New/With change only the receiver's name index and add one node; everything else is untouched), New returns the existing child and is idempotent, a created child has the receiver as parent and starts with its level and format, WithSkip keeps one child per n, a detached logger is parentless/colored/at the package level, parent links form a forest after every history (induction) and Root ends at a parentless logger. Each/Sublogger and the isolation of every non-modelled field are checked by the correspondence on random histories.",
+        "text": "Proof over a tree model: frame theorems (a Set call changes only the receiver; New/With change only the receiver's name index and add one node; everything else is untouched), New returns the existing child and is idempotent, a created child has the receiver as parent and starts with its level and format, WithSkip keeps one child per n, a detached logger is parentless/colored/at the package level, parent links form a forest after every history (induction) and Root ends at a parentless logger; Each visits exactly the loggers from which parent links lead to the receiver, each once and at its depth, and Sublogger finds a logger of the name at or below the receiver iff Each reports one (link-table abstraction with a four-part well-formedness kept by every operation, for every history). The isolation of every non-modelled field and the format of every logger (three-state oracle) are checked by the correspondence on random and pinned histories.",
         "design_ref": "DESIGN.md §7 C10",
-        "note": "Trusted: Lean kernel; extractor (setters); freshness of anonymous names; Each/Sublogger enumeration order (Go map iteration) canonicalised by sorting; the traversal theorem for Each is not proved (correspondence only).",
+        "note": "Trusted: Lean kernel; extractor (setters); freshness of anonymous names; Each/Sublogger enumeration order (Go map iteration) canonicalised by sorting (the traversal theorems each_agrees_with_history / sublogger_agrees_with_history are about the set of visited loggers and their depths).",
         "technique": "Lean 4 frame/invariant proofs (induction over histories) on a tree model; differential random histories with full observation of every logger",
     },
     "C20": {
